@@ -42,7 +42,8 @@ Fixpoint find_style (sm : list style) (t : target) : option style :=
 Inductive img_conv :=
 | ConvDataUri                      (* images.data_uri (default) *)
 | ConvCounting (with_alt : bool)   (* harness family: reads the bytes; src = "img<k>.<subtype-ish>", data-len, optional alt *)
-| ConvNoOpen.                      (* harness family: never opens the image *)
+| ConvNoOpen                       (* harness family: never opens the image *)
+| ConvFileWriter.                  (* cli.ImageWriter: copies the bytes to "<k>.<subtype>", src = that name *)
 
 Record cstate := mkSt {
   st_msgs : list str;                       (* self._messages, in order of emission *)
@@ -148,7 +149,16 @@ Definition conv_attrs (c : img_conv) (k : N) (alt ctype : option str) (src : img
       | ImgError m => inl m
       end
   | ConvNoOpen => inr [(k_src, [110;111;45;111;112;101;110;45] ++ str_of_N k)]
+  | ConvFileWriter =>
+      match src with
+      | ImgData _ => inr [(k_src, str_of_N k ++ [46] ++ subtype_of (fmt_opt ctype))]
+      | ImgError m => inl m
+      end
   end.
+
+(* cli.ImageWriter advances its counter only after the image has been opened and copied; the
+   harness's counting converters count at the start of the call *)
+Definition counts_failed_calls (c : img_conv) : bool := match c with ConvFileWriter => false | _ => true end.
 
 Definition truthy (s : option str) : bool := match s with Some (_ :: _) => true | _ => false end.
 
@@ -157,7 +167,7 @@ Definition visit_image (o : copts) (alt ctype : option str) (src : img_src) : M 
     let k := st_imgs st + 1 in
     let st1 := mkSt (st_msgs st) (st_notes st) (st_comments st) k in
     match conv_attrs (o_conv o) k alt ctype src with
-    | inl m => Ok ([], add_msg m st1)
+    | inl m => Ok ([], add_msg m (if counts_failed_calls (o_conv o) then st1 else st))
     | inr a =>
         let base := if truthy alt then [(k_alt, fmt_opt alt)] else [] in
         Ok ([Elem (plain_tag [105;109;103] (attrs_update base a)) []], st1)
